@@ -43,6 +43,10 @@ pub struct C03Case {
     /// holder key is None
     pub issue: IssueSpec,
     pub entries: Vec<Entry>,
+    /// a string riding along in the key-binding slot (the verifier is not asked to check key
+    /// binding, so it is inert): it must not change what the disclosure list yields
+    #[serde(default)]
+    pub kb: Option<String>,
 }
 
 fn idx(i: u16, n: usize) -> Option<usize> {
@@ -170,6 +174,9 @@ pub fn check(case: &C03Case, st: &mut Stats) -> Verdict {
     let tree = mark(&spec.claims, &spec.strat).map_err(|e| Failure::new("harness:bad-case", format!("{:?}", e)))?;
     st.label(&format!("format={}", spec.fmt.name()));
     st.label(&format!("strategy={}", spec.strat.kind()));
+    if case.kb.is_some() {
+        st.label("kb_slot_filled");
+    }
     let (t1, t2) = match (sut::issue(spec), sut::issue(spec)) {
         (Out::Ok(a), Out::Ok(b)) => (a, b),
         _ => {
@@ -221,7 +228,7 @@ pub fn check(case: &C03Case, st: &mut Stats) -> Verdict {
         list.iter().any(|s| !seen.insert(s.clone()))
     };
     let run = |l: &[String]| -> (Option<String>, Out<Value>) {
-        let parts = Parts { jwt: issued.parts.jwt.clone(), disclosures: l.to_vec(), kb: None };
+        let parts = Parts { jwt: issued.parts.jwt.clone(), disclosures: l.to_vec(), kb: case.kb.clone() };
         match render(&parts, spec.fmt) {
             Some(text) => {
                 let out = sut::verify(&text, spec.fmt, spec.alg, None);
